@@ -352,7 +352,7 @@ class LoopMixin:
             # lists owned by a helper object and grown through its methods ( rec.withdraw(...) -> self.fluxes.append(...) ):
             # the same append-once series as a local list, named after where it is held
             for hname, hl in self.held_appends(body, frame).items():
-                if hname in state["series"]:
+                if hname in state["series"] or hl.kind != "lit":
                     continue
                 items = list(hl.items)
                 hl.__dict__.clear()
@@ -382,6 +382,21 @@ class LoopMixin:
                     continue
                 saved[name] = cur
                 rec.carried_before[name] = cur
+                # a local that shadows the current last element of a list the body also grows ( cur = xs[0]; loop: nxt = f(cur);
+                # xs.append(nxt); cur = nxt ): it IS element k of that list — checked again at the end of the body
+                twin = None
+                if isinstance(cur, (Num, ObjV, TupV)):
+                    for sname, sr in state["series"].items():
+                        if sr.init and not getattr(sr, "filled_by_index", False) and sname not in rec_vars.values() and sr.init[-1] is cur:
+                            twin = sname
+                            break
+                if twin is not None:
+                    sr = state["series"][twin]
+                    ph = self.series_read(sr, Rat.atom(idx) - lo + (len(sr.init) - 1), frame, st)
+                    rec.placeholders[name] = ph
+                    self._set_var(frame, name, ph)
+                    state.setdefault("twins", []).append((name, twin))
+                    continue
                 # the value the variable has at the head of iteration k: an inductive element name[k], as for a list that is
                 # indexed (so `cur = f(cur)` and `xs.append(f(xs[k]))` have the same normal form)
                 if isinstance(cur, (Num, TupV, ObjV)) and not (isinstance(cur, ObjV) and cur.cls is None):
@@ -411,6 +426,15 @@ class LoopMixin:
                 self.ctx.unrolled = saved_unrolled
             for sname, (stx, vname) in recorded.items():
                 self.series_append(state["series"][sname], look(vname), frame, stx)
+            for name, twin in state.get("twins", []):
+                sr = state["series"][twin]
+                try:
+                    same = len(sr.appended) == 1 and key_equiv(val_key(frame.lookup(name)), val_key(sr.appended[0]))
+                except Unmodelled:
+                    same = False
+                if not same:
+                    raise Unmodelled("local %s starts as the last element of %s but is not advanced to the element appended in the step at %s"
+                                     % (name, twin, frame.loc(st)))
             for name, before_key in invariant.items():
                 try:
                     same = key_equiv(val_key(frame.lookup(name)), before_key)
@@ -681,6 +705,14 @@ class LoopMixin:
         out = {}
         for st in body:
             for n in ast.walk(st):
+                if isinstance(n, ast.Call) and isinstance(n.func, ast.Name):
+                    # a bound method kept in a local ( add_mass = feed_mass.append  ...  add_mass(x) ): the list it belongs to
+                    fv = frame.lookup(n.func.id)
+                    if isinstance(fv, FuncV) and fv.kind == "ext" and fv.dotted == "list.append" and isinstance(fv.self_val, ListV) \
+                            and fv.self_val.kind == "lit":
+                        owner = [vn for vn, vv in frame.env.items() if vv is fv.self_val]
+                        out[owner[0] if owner else "list of %s" % n.func.id] = fv.self_val
+                    continue
                 if not (isinstance(n, ast.Call) and isinstance(n.func, ast.Attribute) and isinstance(n.func.value, ast.Name)):
                     continue
                 obj = frame.lookup(n.func.value.id)
